@@ -45,6 +45,32 @@ func (s *Scope) walk(f func(ast.Node) bool) {
 	}
 }
 
+// walkDeep visits node in source order and, where an extracted private helper of the anchor is
+// called, the helper's body (depth <= 3).
+func (s *Scope) walkDeep(node ast.Node, f func(ast.Node) bool) {
+	helpers := map[string]*Func{}
+	if s.Anchor && s.Fn != nil {
+		for _, h := range s.P.privateHelpers(s.Fn) {
+			helpers[h.Key] = h
+		}
+	}
+	var rec func(n ast.Node, depth int)
+	rec = func(n ast.Node, depth int) {
+		walkAll(n, func(m ast.Node) bool {
+			if !f(m) {
+				return false
+			}
+			if cx, ok := m.(*ast.CallExpr); ok && depth < 3 && len(helpers) > 0 {
+				if h := helpers[CalleeName(s.Info, cx)]; h != nil {
+					rec(h.Decl.Body, depth+1)
+				}
+			}
+			return true
+		})
+	}
+	rec(node, 0)
+}
+
 func (p *Prog) ScopeOf(fn *Func) *Scope {
 	if fn == nil || fn.Decl.Body == nil {
 		return nil
@@ -187,7 +213,7 @@ func (s *Scope) blockFacts(b *cfg.Block, succ int) []Fact {
 func (s *Scope) switchTag(cc *ast.CaseClause) ast.Expr {
 	var tag ast.Expr
 	found := false
-	walkAll(s.Body, func(n ast.Node) bool {
+	s.walk(func(n ast.Node) bool { // helper bodies included: their blocks are part of the expanded graph
 		if found {
 			return false
 		}
